@@ -53,7 +53,7 @@ def check_matrix_vector(v):
     bad, n = [], 0
     for ename, enc, letters in _encodings()[:3]:
         txt = lambda row: "".join(letters[c] for c in row)
-        rows0 = pool_exp[0]
+        rows0 = prog[0]["start"]
         w = len(rows0[0])
         flat = bnp.as_encoded_array("".join(txt(r) for r in rows0), enc) if enc is not None else bnp.as_encoded_array("".join(txt(r) for r in rows0))
         pool = [flat.reshape(len(rows0), w)]
@@ -79,6 +79,12 @@ def check_matrix_vector(v):
                     return [[bool(x) for x in row] for row in np.asarray(t == letters[op["x"]]).tolist()]
                 elif name == "ravel":
                     return t.ravel().to_string()
+                elif name == "setrow":
+                    val = letters[op["x"]] * t.shape[1]
+                    t[0] = val if op["form"] == "str" else bnp.as_encoded_array(val)
+                elif name == "setmask":
+                    val = letters[op["y"]]
+                    t[t == letters[op["x"]]] = val if op["form"] == "str" else bnp.as_encoded_array(val)
                 else:
                     raise ValueError(name)
                 return None
@@ -90,6 +96,8 @@ def check_matrix_vector(v):
         tags = {"encoding": ename, "op": prog[-1]["op"], "ops": "-".join(p["op"] for p in prog[1:]), "matrix": True}
         case = {"prog": prog, "start": [txt(r) for r in rows0], "encoding": ename}
         if failed is not None:
+            if prog[failed + 1]["op"] in ("setrow", "setmask") and "read-only" in str(last[1]):
+                continue        # a base-encoded array made from a Python str borrows the (immutable) bytes of the string: not assignable, by NumPy's rules
             if failed == len(prog) - 2 and not (prog[-1]["op"] in ("row", "col") and not pool_exp[prog[-1]["t"] - 1]):
                 bad.append({"what": "operation %s on a character matrix raised" % prog[-1]["op"], "tags": dict(tags, kind="raises"), "vector": v, "case": case,
                             "expected": "a value", "observed": last[1]})
@@ -243,10 +251,7 @@ def _with_start(vectors, starts):
     # by an assignment directly after "create"
     out = []
     for v in vectors:
-        p = v["prog"]
-        if len(p) >= 2 and p[1]["op"] in ("setrow", "setmask") and p[1]["t"] == 1:
-            continue        # start array assigned before any copy: its original content is not in the state; covered via copies
-        v["_start"] = v["pool"][0]
+        v["_start"] = v["prog"][0]["start"]        # what the program was created from (CharArray.tla!Init)
         out.append(v)
     return out
 
@@ -267,7 +272,7 @@ def run(ctx):
         vectors += _with_start(res.vectors, None)
     # rectangular arrays as 2-D character matrices; columns also picked by an index list or a mask
     resm = ctx.tlc("MC_C07", tag="MC_C07_matrix", spec="Spec", constants=dict(base, Matrix=True, MaxRows=3, MaxLen=3, MaxDepth=3 if quick else 4,
-                                                                               Ops=["rows", "cols", "copy", "row", "col", "eq", "ravel"], StartArrays="<- RectStart"),
+                                                                               Ops=["rows", "cols", "copy", "row", "col", "eq", "ravel", "setrow", "setmask"], StartArrays="<- RectStart"),
                    invariants=["TypeOK", "Emit"])
     for v in resm.vectors:
         v["_matrix"] = True
@@ -285,7 +290,7 @@ def run(ctx):
 def replay(d):
     print("replay of C07 case:", d.get("what"), d.get("tags"), d.get("case"))
     v = dict(d["vector"], _all=True, _matrix=bool(d["tags"].get("matrix")))
-    v["_start"] = v["pool"][0]
+    v["_start"] = v["prog"][0]["start"]
     r = check_vector(v)
     same = [b for b in r["bad"] if b["tags"]["kind"] == d["tags"]["kind"]]
     for b in same[:3]:
